@@ -95,9 +95,10 @@ fn snapshot_layers(layers: &Path, names: &[Vec<u8>]) -> String {
     }
     // anything else in the layers directory that is not accounted for
     let mut extra = vec![];
+    let mut known: std::collections::HashSet<String> = std::collections::HashSet::new();
+    for n in names { let n = String::from_utf8_lossy(n).to_string(); known.insert(format!("{n}.toml")); for s in FMT_SUFFIX { known.insert(format!("{n}.sbom.{s}")); } known.insert(n); }
     for e in std::fs::read_dir(layers).unwrap() { let f = e.unwrap().file_name().to_string_lossy().to_string();
-        let known = names.iter().any(|n| { let n = String::from_utf8_lossy(n).to_string(); f == n || f == format!("{n}.toml") || FMT_SUFFIX.iter().any(|s| f == format!("{n}.sbom.{s}")) });
-        if !known { extra.push(hex(f.as_bytes())); } }
+        if !known.contains(&f) { extra.push(hex(f.as_bytes())); } }
     extra.sort();
     if !extra.is_empty() { parts.push(format!("EXTRA:{}", extra.join(","))); }
     join("&", &parts)
@@ -246,11 +247,54 @@ fn nontrivial(ops: &[String]) -> bool {
     false
 }
 
+/// layer-name universes of a history: names that share a dotted prefix / look like another layer's files / differ by case or
+/// one character / carry unusual characters / are long. (A layer named `<other>.toml` or `<other>.sbom.<fmt>.json` would
+/// *be* the other layer's file: such pairs cannot both satisfy the property and are left out.)
+fn name_pools() -> Vec<(&'static str, Vec<String>)> {
+    let long = "n".repeat(200);
+    let long2 = format!("{}.x", "n".repeat(198));
+    vec![
+        ("dotted", vec!["a".into(), "a.tools".into(), "a.sbom".into()]),
+        ("deep", vec!["a".into(), "a.b".into(), "a.b.c".into()]),
+        ("filelike", vec!["a".into(), "a.sbom.cdx".into(), "a.toml.x".into()]),
+        ("filelike2", vec!["a.sbom".into(), "a.sbom.spdx".into(), "a.sbom.cdx.json.x".into()]),
+        ("case", vec!["a".into(), "A".into(), "a.A".into()]),
+        ("edit", vec!["a".into(), "ab".into(), "a-b".into()]),
+        ("chars", vec!["Abc 123.-_!".into(), "123".into(), "\u{fc}-\u{5c42}".into()]),
+        ("hidden", vec![".hidden".into(), "..x".into(), "x.".into()]),
+        ("phase", vec!["build-foo".into(), "launch.x".into(), "store.build".into()]),
+        ("long", vec![long.clone(), long2, "n".into()]),
+        ("plain", vec!["a".into(), "bee".into(), "c-3".into()]),
+    ]
+}
+fn hexnames(v: &[String]) -> Vec<String> { v.iter().map(|n| hex(n.as_bytes())).collect() }
+
+const INTS: [i64; 8] = [0, 1, -1, 7, 49, i64::MAX, i64::MIN, 1 << 53];
+fn content_pool() -> Vec<Vec<u8>> { vec![vec![], b"x".to_vec(), b"{\"k\":1}".to_vec(), vec![0xff, 0x00, 0xfe], vec![b'z'; 300], b"line\nline\n".to_vec()] }
+// (`env.build` / `env.launch` as plain files are left out: `write_env` then fails half-way, after `env/` was rewritten; the state
+// an erroring write leaves is not constrained by C01 and not tracked by the model - partial effects of failures are C12's)
+const FILE_NAMES: [&str; 10] = ["f1", "f2", "bin", "env", "exec.d", ".hidden", "with space", "\u{fc}n\u{ef}", "lib", "data.toml"];
+const ENV_NAMES: [&[u8]; 8] = [b"P", b"Q.x", b"PATH", b"lower", b"X.append", b"N\xff", b"A=B", b"LD_LIBRARY_PATH"];
+const ENV_VALS: [&[u8]; 7] = [b"", b"v", b"/x", b":", b"\xff\xfe", b"a\nb", b"a b"];
+const ENV_SCOPES: [&str; 6] = ["A", "B", "L", "P:776562", "P:776f726b6572", "P:772d312e78"];
+const BEHS: [&str; 5] = ["a", "d", "m", "o", "p"];
+const PROG_NAMES: [&str; 8] = ["p0", "p1", "p2", "a.b", "with-dash", "\u{fc}", "UPPER", "0"];
+
+/// `n` entries in ONE env directory (`env` / `env.launch`) or, for `procs`, one entry in each of `n` process directories; plus one
+/// entry in every other scope
+fn big_env(n: usize, main: &str) -> String {
+    let mut e: Vec<String> = (0..n).map(|i| { let sc = if main == "procs" { format!("P:{}", hex(format!("proc{i:03}").as_bytes())) } else { main.to_string() };
+        format!("{sc}/{}/{}/{}", BEHS[i % 5], hex(format!("V{:03}", i / 5).as_bytes()), hex(format!("v{i}").as_bytes())) }).collect();
+    for sc in ["A", "B", "L", "P:776562"] { if sc != main { e.push(format!("{sc}/a/{}/{}", hex(b"V000"), hex(b"other"))); } }
+    join(",", &e)
+}
+
 fn generate(tier: &str, seed: u64, emit: &mut dyn FnMut(Case)) {
+    let thorough = tier == "thorough";
     let mk = |names: &[&str], ops: Vec<String>, kind: &str| {
         let nt = nontrivial(&ops);
         let nreq = ops.iter().filter(|o| o.starts_with('C') || o.starts_with('U')).count();
-        Case { fields: vec![names.join(","), join(";", &ops)], tags: vec![("kind".into(), kind.into()), ("len".into(), (ops.len().min(40) / 5 * 5).to_string()), ("restores".into(), ops.iter().filter(|o| *o == "R").count().min(4).to_string()), ("requests".into(), nreq.min(9).to_string())], nontrivial: nt }
+        Case { fields: vec![names.join(","), join(";", &ops)], tags: vec![("kind".into(), kind.into()), ("len".into(), (ops.len().min(40) / 5 * 5).to_string()), ("restores".into(), ops.iter().filter(|o| *o == "R").count().min(6).to_string()), ("requests".into(), nreq.min(9).to_string())], nontrivial: nt }
     };
     // layer names that share a prefix up to a dot: path arithmetic on `<name>.toml` / `<name>.sbom.*` must not confuse them
     let a = hex(b"a"); let b = hex(b"a.tools"); let c = hex(b"a.sbom");
@@ -258,47 +302,136 @@ fn generate(tier: &str, seed: u64, emit: &mut dyn FnMut(Case)) {
     let alpha = alphabet(&a);
     for x in &alpha { emit(mk(&[&a], vec![x.clone()], "exh1")); }
     for x in &alpha { for y in &alpha { emit(mk(&[&a], vec![x.clone(), y.clone()], "exh2")); } }
-    if tier == "thorough" { for x in &alpha { for y in &alpha { for z in &alpha { emit(mk(&[&a], vec![x.clone(), y.clone(), z.clone()], "exh3")); } } } }
+    if thorough { for x in &alpha { for y in &alpha { for z in &alpha { emit(mk(&[&a], vec![x.clone(), y.clone(), z.clone()], "exh3")); } } } }
     // 2. directed: request, populate, restore, request again with every callback combination
     for t in ["11", "10", "01", "00"] { for second in alphabet(&a).iter().filter(|o| o.starts_with('C') || o.starts_with('U')) {
         let ops = vec![format!("C.{a}.{t}.G.d1.k2"), format!("M.{a}.4_9"), format!("E.{a}.B/p/50415448/2f78"), format!("S.{a}.0=63+2=73"), format!("X.{a}.{}=2321", hex(b"p1")), format!("F.{a}.{}=64", hex(b"data")), "R".into(), second.clone(), format!("S.{a}.1=6e"), "R".into(), format!("U.{a}.11")];
         emit(mk(&[&a], ops, "directed"));
     } }
-    // 2b. directed: two layers whose names differ by a dotted suffix; each request/delete of one must leave the other alone
-    for (x, y) in [(&a, &b), (&b, &a), (&a, &c), (&c, &a), (&b, &c)] { for second in ["U.{}.11", "C.{}.11.G.d1.d3", "C.{}.11.V.d4.k2", "C.{}.11.G.d1.k2"] {
-        let ops = vec![format!("C.{x}.11.G.d1.k2"), format!("M.{x}.4_9"), format!("S.{x}.0=63"), format!("C.{y}.11.G.d1.k2"), format!("M.{y}.5_~"), format!("S.{y}.1=64+2=65"), "R".into(), second.replace("{}", y), format!("C.{x}.11.G.d1.k2"), "R".into(), second.replace("{}", x), format!("C.{y}.11.V.d7.k1")];
-        emit(mk(&[x.as_str(), y.as_str()], ops, "directed-dotted"));
+    // 2b. directed: two layers whose names are correlated (dotted suffix, another layer's file stem, case, one edit, unusual
+    //     characters, long); each request/delete of one must leave the other alone
+    let pools = name_pools();
+    for (pname, pool) in &pools {
+        let hn = hexnames(pool);
+        let pairs: Vec<(usize, usize)> = if *pname == "dotted" { vec![(0, 1), (1, 0), (0, 2), (2, 0), (1, 2)] } else { vec![(0, 1), (1, 0), (0, 2), (2, 1)] };
+        for (i, j) in pairs { let (x, y) = (&hn[i], &hn[j]);
+            for second in ["U.{}.11", "C.{}.11.G.d1.d3", "C.{}.11.V.d4.k2", "C.{}.11.G.d1.k2"] {
+                let ops = vec![format!("C.{x}.11.G.d1.k2"), format!("M.{x}.4_9"), format!("S.{x}.0=63"), format!("C.{y}.11.G.d1.k2"), format!("M.{y}.5_~"), format!("S.{y}.1=64+2=65"), "R".into(), second.replace("{}", y), format!("C.{x}.11.G.d1.k2"), "R".into(), second.replace("{}", x), format!("C.{y}.11.V.d7.k1")];
+                let mut c = mk(&[x.as_str(), y.as_str()], ops, "directed-dotted"); c.tags.push(("names".into(), pname.to_string())); emit(c);
+            }
+        }
+    }
+    // 2c. directed "twice": the same layer requested twice in one build with different kinds / flags / metadata types, then every
+    //     writer through the reference handed out FIRST, a restore and a keep
+    let reqs = ["C.{}.10.G.d1.k2", "C.{}.01.V.r5_~_6.k2", "C.{}.11.G.d1.k2", "U.{}.10", "U.{}.01", "U.{}.11", "C.{}.00.V.d1.d3"];
+    for r1 in reqs { for r2 in reqs {
+        let ops = vec![r1.replace("{}", &a), r2.replace("{}", &a), format!("M.{a}.3_8"), format!("S.{a}.1=6e"), format!("E.{a}.L/o/51/77,P:776562/a/50/78"), format!("X.{a}.{}=2321", hex(b"p1")), format!("F.{a}.{}=64", hex(b"data")), "R".into(), format!("C.{a}.11.G.d1.k2"), format!("C.{a}.11.V.d1.k4")];
+        emit(mk(&[&a, &b], ops, "twice"));
     } }
-    // 3. sampled histories over three names
-    let samples = if tier == "thorough" { 50_000 } else { 3_000 };
-    let maxlen = if tier == "thorough" { 40 } else { 14 };
-    let names = [a.as_str(), b.as_str(), c.as_str()];
+    // 2d. directed "retry": a populated, restored layer; a request that fails (restored-layer callback fails / invalid-metadata
+    //     callback fails / metadata file is not a document), then the request again with every decision; write; restore; keep
+    let retries = ["C.{}.11.V.d1.k2", "C.{}.11.V.d1.d3", "C.{}.11.G.d1.k2", "C.{}.11.V.r5_~_6.k2", "C.{}.01.V.r5_~_6.d3", "U.{}.01", "C.{}.11.V.f.f"];
+    for t in ["11", "10", "00"] { for (fi, failing) in [("M.{}.4_9", "C.{}.11.V.d1.f"), ("M.{}.~_7", "C.{}.11.V.f.k2"), ("M.{}.~_~", "C.{}.10.V.f.k2"), ("B.{}", "C.{}.11.G.d1.k2"), ("B.{}", "U.{}.11")].iter().enumerate() { for again in retries {
+        let mut ops = vec![format!("C.{a}.{t}.G.d1.k2"), format!("E.{a}.B/p/50415448/2f78"), format!("S.{a}.0=63+2=73"), format!("X.{a}.{}=2321", hex(b"p1")), format!("F.{a}.{}=64", hex(b"data"))];
+        if failing.0.starts_with('M') { ops.push(failing.0.replace("{}", &a)); ops.push("R".into()); } else { ops.push(format!("M.{a}.4_9")); ops.push("R".into()); ops.push(failing.0.replace("{}", &a)); }
+        ops.push(failing.1.replace("{}", &a)); ops.push(failing.1.replace("{}", &a)); ops.push(again.replace("{}", &a));
+        ops.push(format!("F.{a}.{}=65", hex(b"more"))); ops.push("R".into()); ops.push(format!("C.{a}.11.G.d1.k2"));
+        let mut c = mk(&[&a], ops, "retry"); c.tags.push(("failing".into(), fi.to_string())); emit(c);
+    } } }
+    // 2e. directed "chain": restore / keep chains of length 3..6 (thorough ..9), flags and metadata type changing along the
+    //     chain, one writer per build (so every kind of content is carried across several restores), final delete
+    let max_chain = if thorough { 9 } else { 6 };
+    for len in 3..=max_chain { for variant in 0..5usize {
+        let mut ops = vec![format!("C.{a}.11.G.d1.k2"), format!("M.{a}.4_9"), format!("E.{a}.A/a/50/76,P:776562/o/51/77"), format!("S.{a}.0=63+1=+2=73"), format!("X.{a}.{}=2321+{}=", hex(b"p1"), hex(b"p2")), format!("F.{a}.{}=", hex(b"empty"))];
+        for i in 0..len {
+            ops.push("R".into());
+            let fl = ["11", "10", "01", "00"][(i + variant) % 4]; let mt = if (i + variant) % 2 == 0 { "V" } else { "G" };
+            ops.push(format!("C.{a}.{fl}.{mt}.d1.k{}", i % 9));
+            ops.push(match (i + variant) % 5 { 0 => format!("F.{a}.{}={}", hex(format!("g{i}").as_bytes()), hex(&[b'a' + i as u8])), 1 => format!("M.{a}.{}_{}", INTS[i % 8], i), 2 => format!("S.{a}.1={}", hex(&[b'a' + i as u8])), 3 => format!("E.{a}.L/p/{}/{}", hex(format!("N{i}").as_bytes()), hex(b"v")), _ => format!("X.{a}.{}=31", hex(format!("q{i}").as_bytes())) });
+        }
+        ops.push("R".into()); ops.push(format!("C.{a}.11.V.d1.d3")); ops.push("R".into()); ops.push(format!("C.{a}.11.G.d1.k2"));
+        let mut c = mk(&[&a, &c], ops, "chain"); c.tags.push(("chain".into(), len.to_string())); emit(c);
+    } }
+    // 2f. directed "values": every special metadata integer / content from the pools written, carried over a restore and kept
+    let contents = content_pool();
+    for (i, v) in INTS.iter().enumerate() { let w = INTS[(i + 3) % 8];
+        for meta in [format!("{v}_~"), format!("~_{w}"), format!("{v}_{w}")] {
+            let ops = vec![format!("C.{a}.11.G.d1.k2"), format!("M.{a}.{meta}"), "R".into(), format!("C.{a}.11.V.r{w}_~_6.k2"), "R".into(), format!("C.{a}.11.G.d1.k2"), format!("M.{a}.~_~"), "R".into(), format!("C.{a}.11.G.d1.k2"), format!("C.{a}.11.V.r{v}_~_1.d3")];
+            emit(mk(&[&a], ops, "values"));
+        }
+    }
+    for ct in &contents { let h = hex(ct);
+        let ops = vec![format!("C.{a}.11.G.d1.k2"), format!("S.{a}.0={h}+1={h}+2={h}"), format!("F.{a}.{}={h}", hex(b"f")), format!("X.{a}.{}={h}", hex(b"p")), format!("E.{a}.A/o/{}/{h}", hex(b"V")), "R".into(), format!("C.{a}.01.G.d1.k2"), format!("S.{a}.1={h}"), "R".into(), format!("C.{a}.11.G.d1.d3")];
+        emit(mk(&[&a], ops, "values"));
+    }
+    // 2g. directed "big": container sizes on both sides of 16/20/32/64/128 - files in a layer, env entries, exec.d programs,
+    //     layers in the layers directory - populated, restored, kept, changed, restored, deleted
+    let sizes: Vec<usize> = if thorough { vec![15, 16, 17, 18, 19, 20, 21, 22, 31, 32, 33, 34, 63, 64, 65, 66, 127, 128, 129, 130] } else { vec![17, 21, 33, 65, 129] };
+    for &n in &sizes {
+        let tag = |mut c: Case, what: &str| { c.tags.push(("big".into(), what.into())); c.tags.push(("size".into(), n.to_string())); c };
+        for second in ["C.{}.11.V.d1.k2", "C.{}.11.G.d1.d3"] {
+            // files
+            let mut ops = vec![format!("C.{a}.11.G.d1.k2"), format!("M.{a}.4_9")];
+            for i in 0..n { ops.push(format!("F.{a}.{}={}", hex(format!("f{i:03}").as_bytes()), hex(format!("{i}").as_bytes()))); }
+            ops.extend(["R".into(), second.replace("{}", &a), format!("F.{a}.{}=", hex(b"f000")), "R".into(), format!("U.{a}.11")]);
+            emit(tag(mk(&[&a, &b], ops, "big"), "files"));
+            // env entries
+            for main in ["A", "L", "procs"] {
+                let ops = vec![format!("C.{a}.11.G.d1.k2"), format!("M.{a}.4_9"), format!("E.{a}.{}", big_env(n, main)), "R".into(), second.replace("{}", &a), format!("E.{a}.{}", big_env(n - 1, main)), "R".into(), format!("C.{a}.11.G.d1.k2"), format!("E.{a}.-"), "R".into(), format!("C.{a}.11.G.d1.d3")];
+                emit(tag(mk(&[&a, &b], ops, "big"), &format!("env-{main}")));
+            }
+            // exec.d programs
+            let progs = |k: usize| join("+", &(0..k).map(|i| format!("{}={}", hex(format!("prog{i:03}").as_bytes()), hex(format!("#!{i}").as_bytes()))).collect::<Vec<_>>());
+            let ops = vec![format!("C.{a}.11.G.d1.k2"), format!("M.{a}.4_9"), format!("X.{a}.{}", progs(n)), "R".into(), second.replace("{}", &a), format!("X.{a}.{}", progs(n + 1)), format!("X.{a}.{}", progs(n + 1)), "R".into(), format!("C.{a}.11.G.d1.k2"), format!("X.{a}.-"), "R".into(), format!("U.{a}.10")];
+            emit(tag(mk(&[&a, &b], ops, "big"), "execd"));
+        }
+        // layers (each step's snapshot lists every layer: the biggest sizes only in the thorough tier)
+        if n <= 66 || thorough {
+            let names: Vec<String> = (0..n).map(|i| hex(format!("l{i:03}").as_bytes())).collect();
+            let mut ops: Vec<String> = vec![];
+            for (i, l) in names.iter().enumerate() { ops.push(format!("C.{l}.{}.G.d1.k2", ["11", "10", "01", "00"][i % 4])); if i % 7 == 0 { ops.push(format!("M.{l}.{i}_~")); } if i % 5 == 0 { ops.push(format!("S.{l}.{}={}", i % 3, hex(format!("{i}").as_bytes()))); } }
+            ops.push("R".into());
+            let mid = &names[n / 2]; let last = &names[n - 1]; let first = &names[0];
+            ops.extend([format!("C.{mid}.11.G.d1.d3"), format!("U.{last}.11"), format!("C.{first}.11.V.d1.k2"), format!("S.{first}.-"), format!("B.{}", names[1]), format!("C.{}.11.G.d1.k2", names[1])]);
+            for l in names.iter().step_by(3) { ops.push(format!("C.{l}.11.G.d1.k5")); }
+            ops.push("R".into()); ops.push(format!("C.{mid}.11.G.d1.k2"));
+            let nr: Vec<&str> = names.iter().map(String::as_str).collect();
+            emit(tag(mk(&nr, ops, "big"), "layers"));
+        }
+    }
+    // 3. sampled histories over three names (half of them the dotted-prefix names, else any of the name pools), values from pools
+    let samples = if thorough { 50_000 } else { 3_000 };
+    let maxlen = if thorough { 40 } else { 14 };
     for idx in 0..samples {
         let mut r = Rng::for_case(seed, idx);
+        let (pname, pool) = if r.chance(1, 2) { &pools[0] } else { r.pick(&pools) };
+        let hn = hexnames(pool);
+        let names: Vec<&str> = hn.iter().map(String::as_str).collect();
         let len = 1 + r.below(maxlen);
         let mut ops: Vec<String> = vec![];
         let mut live: Vec<&str> = vec![];
+        let int = |r: &mut Rng| -> i64 { if r.chance(1, 6) { *r.pick(&INTS) } else { r.below(50) as i64 } };
         for _ in 0..len {
             let n = if !live.is_empty() && r.chance(3, 4) { *r.pick(&live) } else { *r.pick(&names) };
             let roll = r.below(100);
             let op = if roll < 28 {
                 let mt = if r.chance(1, 2) { "G" } else { "V" };
-                let ci = match r.below(6) { 0 | 1 => format!("d{}", r.below(9)), 2 | 3 | 4 => format!("r{}_~_{}", r.below(50), r.below(9)), _ => "f".into() };
+                let ci = match r.below(6) { 0 | 1 => format!("d{}", r.below(9)), 2 | 3 | 4 => format!("r{}_~_{}", int(&mut r), r.below(9)), _ => "f".into() };
                 let ci = if mt == "G" { format!("d{}", r.below(9)) } else { ci };
                 let cr = match r.below(7) { 0 | 1 | 2 => format!("k{}", r.below(9)), 3 | 4 | 5 => format!("d{}", r.below(9)), _ => "f".into() };
                 if !live.contains(&n) { live.push(n); }
                 format!("C.{n}.{}{}.{mt}.{ci}.{cr}", r.below(2), r.below(2))
             } else if roll < 36 { if !live.contains(&n) { live.push(n); } format!("U.{n}.{}{}", r.below(2), r.below(2)) }
-            else if roll < 46 { format!("M.{n}.{}_{}", if r.chance(2, 3) { r.below(50).to_string() } else { "~".into() }, if r.chance(1, 3) { r.below(50).to_string() } else { "~".into() }) }
-            else if roll < 54 { let k = r.below(3); let e: Vec<String> = (0..k).map(|_| format!("{}/{}/{}/{}", r.pick(&["A", "B", "L", "P:776562"]), r.pick(&["a", "d", "m", "o", "p"]), hex(r.pick(&["P", "Q.x", "PATH"]).as_bytes()), hex(r.pick(&["", "v", "/x"]).as_bytes()))).collect(); format!("E.{n}.{}", join(",", &e)) }
-            else if roll < 64 { let mut sb = vec![]; for i in 0..3 { if r.chance(1, 3) { sb.push(format!("{i}={}", hex(&[b'a' + r.below(20) as u8]))); } } format!("S.{n}.{}", join("+", &sb)) }
-            else if roll < 72 { match r.below(8) { 0 => format!("X.{n}.-"), 1 => format!("X.{n}.{}=~", hex(b"gone")), _ => { let k = 1 + r.below(2); let ps: Vec<String> = (0..k).map(|j| format!("{}={}", hex(format!("p{j}").as_bytes()), hex(&[b'0' + r.below(9) as u8]))).collect(); format!("X.{n}.{}", ps.join("+")) } } }
-            else if roll < 82 { format!("F.{n}.{}={}", hex(r.pick(&["f1", "f2", "bin", "env", "exec.d"]).as_bytes()), hex(&[b'A' + r.below(20) as u8])) }
+            else if roll < 46 { format!("M.{n}.{}_{}", if r.chance(2, 3) { int(&mut r).to_string() } else { "~".into() }, if r.chance(1, 3) { int(&mut r).to_string() } else { "~".into() }) }
+            else if roll < 54 { let k = if r.chance(1, 8) { 4 + r.below(20) } else { r.below(3) }; let e: Vec<String> = (0..k).map(|_| format!("{}/{}/{}/{}", r.pick(&ENV_SCOPES), r.pick(&BEHS), hex(*r.pick(&ENV_NAMES)), hex(*r.pick(&ENV_VALS)))).collect(); format!("E.{n}.{}", join(",", &e)) }
+            else if roll < 64 { let mut sb = vec![]; for i in 0..3 { if r.chance(1, 3) { sb.push(format!("{i}={}", if r.chance(1, 4) { hex(r.pick::<Vec<u8>>(&contents)) } else { hex(&[b'a' + r.below(20) as u8]) })); } } format!("S.{n}.{}", join("+", &sb)) }
+            else if roll < 72 { match r.below(8) { 0 => format!("X.{n}.-"), 1 => format!("X.{n}.{}=~", hex(b"gone")), _ => { let k = 1 + r.below(3) as usize; let mut pn: Vec<&str> = PROG_NAMES.to_vec(); r.shuffle(&mut pn); let ps: Vec<String> = pn[..k].iter().map(|p| format!("{}={}", hex(p.as_bytes()), if r.chance(1, 4) { hex(r.pick::<Vec<u8>>(&contents)) } else { hex(&[b'0' + r.below(9) as u8]) })).collect(); format!("X.{n}.{}", ps.join("+")) } } }
+            else if roll < 82 { format!("F.{n}.{}={}", hex(r.pick(&FILE_NAMES).as_bytes()), if r.chance(1, 4) { hex(r.pick::<Vec<u8>>(&contents)) } else { hex(&[b'A' + r.below(20) as u8]) }) }
             else if roll < 84 { format!("B.{n}") }
             else { live.clear(); "R".into() };
             ops.push(op);
         }
-        emit(mk(&names, ops, "rnd"));
+        let mut c = mk(&names, ops, "rnd"); c.tags.push(("names".into(), pname.to_string())); emit(c);
     }
 }
 
